@@ -221,6 +221,18 @@ def compared_operands(f, b, subst=None, depth=0):
     return out
 
 
+def object_key(t):
+    """Identity of the mutable object a term denotes — (local, field, …) — or None for a computed value."""
+    t = strip_deep(t)
+    path = []
+    while t[0] == "field":
+        path.append("." + str(t[2]))
+        t = strip_deep(t[1])
+    if t[0] in ("mvar", "var"):
+        return (t[2],) + tuple(reversed(path))
+    return None
+
+
 def value_text(body, fs, rv, bb, si):
     """α-normalised, `?`-peeled rendering of what the rvalue at (bb, si) evaluates to there."""
     return peel_try(strip_deep(fs.at(bb, si).rvalue(rv)))
@@ -392,12 +404,28 @@ def run(ctx):
         ctx.missing("R-CHK", "SmallAsnSet::from_iter", fi)
     else:
         ctx.saw_fn(fi)
+        # the vector that ends up in the returned set, as a mutable object (local + field path): `res.0` of a set
+        # built first and normalised in place, or a local vector normalised first and wrapped last
+        vec_keys = set()
+        fs = FlowSym(b)
+        for rb in b.return_blocks():
+            rt = strip_deep(fs.at(rb, "term").local(0))
+            inner = rt
+            while inner[0] == "mvar":
+                inner = strip_deep(inner[3])
+            if rt[0] == "agg" and rt[1] == S and len(rt[3]) == 1:
+                vec_keys.add(object_key(rt[3][0][1]))
+            elif inner[0] == "agg" and inner[1] == S and len(inner[3]) == 1:
+                k0 = object_key(rt)
+                vec_keys.add(k0 + (".0",) if k0 else None)
+            else:
+                vec_keys.add(None)
+        vec_key = next(iter(vec_keys)) if len(vec_keys) == 1 else None
         for what, rx in (("sort", r"^(sort|sort_unstable|sort_by|sort_unstable_by|sort_by_key)$"), ("dedup", r"^(dedup|dedup_by|dedup_by_key)$")):
             def sink(c, rx=rx):
-                if not re.match(rx, c.name or ""):
+                if not re.match(rx, c.name or "") or not c.args:
                     return False
-                a = K.arg_renders(c)
-                return re.search(r"res.*\.0$|^res", a[0]) is not None
+                return vec_key is not None and object_key(K.arg_terms(c)[0]) == vec_key
             # from_iter returns the set itself: treat every return as success, calls are effects (always "checked")
             blocks = {c.bb for c in b.calls() if c.is_static and sink(c)}
             reach = b.reachable(0, removed_blocks=blocks)
@@ -624,29 +652,62 @@ def merge_step_table(b):
                 else:
                     table.setdefault(key, set()).add(act)
 
-    def rec(bb, conds, events, seen):
+    def const_of(op, env):
+        """Value of an operand that is a literal, or a plain local holding one on the path walked so far."""
+        if "k" in op:
+            v = op["k"].get("v")
+            return int(v) if isinstance(v, (bool, int)) else None
+        pl = op.get("c") or op.get("m")
+        if pl is not None and not pl["p"]:
+            return env.get(pl["l"])
+        return None
+
+    def rec(bb, conds, events, seen, env):
         if bb in seen:
             return finish(conds, events, "continue")
         seen = seen | {bb}
+        # flags set on this path (`let take_left = match … { … => true, … }` … `if take_left`): a later branch on
+        # such a local is decided by the value this path gave it
+        for st in b.blocks[bb]["stmts"]:
+            if st["s"] == "assign" and st["rv"]["r"] in ("ref", "rawptr") and st["rv"]["pl"]["l"] in env:
+                env = dict(env)
+                env.pop(st["rv"]["pl"]["l"], None)      # borrowed: may change behind our back
+            if st["s"] == "assign" and not st["pl"]["p"]:
+                v = const_of(st["rv"]["op"], env) if st["rv"]["r"] == "use" else None
+                if v is not None or st["pl"]["l"] in env:
+                    env = dict(env)
+                    env.pop(st["pl"]["l"], None)
+                    if v is not None:
+                        env[st["pl"]["l"]] = v
+            elif st["s"] in ("assign", "setdiscr") and st["pl"]["l"] in env:
+                env = dict(env)
+                env.pop(st["pl"]["l"], None)
         t = b.blocks[bb]["term"]
         k = t["t"]
         if k == "return":
             return finish(conds, events, "return")
         if k in ("goto", "drop", "assert"):
-            return rec(t["target"], conds, events, seen)
+            return rec(t["target"], conds, events, seen, env)
         if k == "call":
             c = [c for c in b.calls() if c.bb == bb][0]
             ev = events
             if c.name in ("next", "next_back", "nth", "advance_by"):
                 ev = events + [(c.name, K.alpha(render(strip_deep(s.operand(c.args[0]))), b),
                                 "ret" if (t["dest"]["l"] == 0 and not t["dest"]["p"]) else "")]
+            if t["dest"]["l"] in env:
+                env = dict(env)
+                env.pop(t["dest"]["l"], None)
             if t.get("target") is not None:
-                return rec(t["target"], conds, ev, seen)
+                return rec(t["target"], conds, ev, seen, env)
             return
         if k == "switch":
+            known = const_of(t["discr"], env)
+            if known is not None:
+                tgt = [tb for v, tb in t["targets"] if v == known]
+                return rec(tgt[0] if tgt else t["otherwise"], conds, events, seen, env)
             d = K.alpha(render(strip_deep(s.operand(t["discr"]))), b)
             for v, tb in t["targets"]:
-                rec(tb, conds + [(d, v)], events, seen)
+                rec(tb, conds + [(d, v)], events, seen, env)
             # the otherwise edge stands for the one value not listed
             listed = {v for v, _ in t["targets"]}
             ov = None
@@ -655,8 +716,8 @@ def merge_step_table(b):
                 ov = rest[0] if len(rest) == 1 else None
             elif "peek" in d:
                 ov = 1 if 0 in listed else (0 if 1 in listed else None)
-            rec(t["otherwise"], conds + [(d, ov)], events, seen)
-    rec(0, [], [], frozenset())
+            rec(t["otherwise"], conds + [(d, ov)], events, seen, env)
+    rec(0, [], [], frozenset(), {})
     return table, problems
 
 
